@@ -1,6 +1,6 @@
 (* Props/C06.v — property theorems only.  C06: hybrid loads conserve every month's ground energy. *)
 From Coq Require Import ZArith QArith List.
-From GHE Require Import Base.QUtil gen.Src Model.Hybrid Proof.HybridP Proof.SplitP.
+From GHE Require Import Base.QUtil gen.Src Model.Hybrid Proof.HybridP Proof.SplitP Proof.SplitMonthP.
 Import ListNotations.
 Open Scope Q_scope.
 
@@ -43,8 +43,7 @@ Proof. cbv zeta. split; [vm_compute; reflexivity | reflexivity]. Qed.
 (* from the input profile to the two hourly series, split_heat_and_cool REGENERATED from ground_loads.py, for EVERY profile (W, extraction
    positive): the series have the profile's length, are non-negative kW values, never both non-zero in one hour, and extraction minus rejection
    is the profile / 1000 — "the month's net hourly ground load of the input profile (rejection minus extraction)" is therefore minus the profile in kW.
-   (The monthly totals, peaks and peak days taken from these series by the regenerated split_loads_by_month are validated against the real method on
-   whole years of loads on every run; their closed form is not proved.) *)
+   (The monthly arrays taken from these series by the regenerated split_loads_by_month: C06_monthly_arrays_closed_form below.) *)
 Theorem C06_hourly_split_lengths : forall raw : list Q,
   length (fst (split_heat_and_cool raw)) = length raw /\ length (snd (split_heat_and_cool raw)) = length raw.
 Proof. exact split_lengths. Qed.
@@ -55,3 +54,19 @@ Theorem C06_hourly_split_is_the_profile : forall (raw : list Q) (k : nat), (k < 
   0 <= rej /\ 0 <= ext /\ (rej == 0 \/ ext == 0) /\ ext - rej == nth k raw 0 / 1000.
 Proof. exact split_pointwise. Qed.
 Print Assumptions C06_hourly_split_is_the_profile.
+
+(* split_loads_by_month REGENERATED from ground_loads.py (the whole method: a loop over the months with eight item-assigned arrays), on the
+   non-leap calendar, for EVERY pair of hourly series: month m's total / peak / average / peak day are the sum, the maximum, sum / number of hours
+   and floor(first index of the maximum / 24) of the series' hours [cum(m-1), cum(m)) — all eight arrays in closed form *)
+Theorem C06_monthly_arrays_closed_form : forall R E : list Q,
+  split_loads_by_month cal12 R E z13 z13 z13 z13 z13 z13 z13 z13
+  = (m_total R, m_total E, m_peak R, m_peak E, m_avg R, m_avg E, m_peak_day R, m_peak_day E).
+Proof. exact split_by_month_closed_form. Qed.
+Print Assumptions C06_monthly_arrays_closed_form.
+
+(* the twelve slices tile a year of 8760 hours: the monthly totals add up to the year's total of the hourly series (so, with C06_total, the energy
+   of the hybrid sequence over a year is the energy of the hourly profile) *)
+Theorem C06_monthly_totals_conserve_the_year : forall X : list Q, Z.of_nat (length X) = 8760%Z ->
+  fold_left Qplus (m_total X) 0 == qsum X.
+Proof. exact monthly_totals_conserve_the_year. Qed.
+Print Assumptions C06_monthly_totals_conserve_the_year.
